@@ -150,12 +150,13 @@ def duality(ctx, mech, label, f, xs, rng, rec_kind, rec_bases, cls, sample=None)
         ctx.skip('out_of_domain:ill-conditioned (|y| or |Jv| > 1e5)'); return False
     direct = rec_kind == 'direct'          # record with the evaluation polynomial itself and sweep without re-evaluation
     try:
-        cg, _ = progs.record(f, [UTPM(x.copy()) for x in xs] if direct else [progs.rec_value(rec_kind, b, rng) for b in rec_bases])
+        lay = lambda x: UTPM(gen.relayout(x, gen.LAYOUTS[int(rng.integers(len(gen.LAYOUTS)))]))          # independents in any memory layout
+        cg, _ = progs.record(f, [lay(x) for x in xs] if direct else [progs.rec_value(rec_kind, b, rng) for b in rec_bases])
     except Exception as e:
         ctx.skip('not-traceable:' + label); return False
     try:
         if not direct:
-            cg.pushforward([UTPM(x.copy()) for x in xs])
+            cg.pushforward([lay(x) for x in xs])
         y = cg.dependentFunctionList[0].x
     except Exception as e:
         ctx.skip('replay-raises (C05 matter):' + label); return False
